@@ -83,9 +83,9 @@ def _memo(fn):
         except AttributeError:
             return fn(idx)
         if key in cache:
-            return cache[key]
+            return cache[key][1]
         v = fn(idx)
-        cache[key] = v
+        cache[key] = (idx, v)     # the index terms are kept alive: z3 recycles the ids of collected terms
         return v
     return g
 
@@ -176,6 +176,19 @@ def from_nested(data, dtype=None):
         return new_arr((), lambda idx: v, dtype or scalar_dtype(v))
     if isinstance(data, SeqVal):
         r = data.reader()
+        probe = r(0)
+        if isinstance(probe, Arr):
+            # sequence of equally shaped arrays (np.array(list of arrays)): stacked along a new leading axis
+            eshape = tuple(probe.shape)
+
+            def fn(idx, r=r, eshape=eshape):
+                e = r(idx[0])
+                if not isinstance(e, Arr) or len(e.shape) != len(eshape):
+                    raise EngineError("ragged sequence of arrays")
+                for x, y in zip(e.shape, eshape):
+                    require_dim_eq(x, y, "stack-shape")
+                return e.get(tuple(idx[1:]))
+            return new_arr((data.length,) + eshape, fn, dtype or probe.dtype)
         return new_arr((data.length,), lambda idx: r(idx[0]), dtype or "float")
     if isinstance(data, (list, tuple)):
         items = [from_nested(x) if not sv.is_scalar(x) else x for x in data]
